@@ -362,6 +362,61 @@ pub fn run(prop: &str, tier: &str, replay: Option<&str>) -> i32 {
         run::levels(&sec, &space, k, &|o, _| judge(o, &bin, backend, &scratch, counter.fetch_add(1, std::sync::atomic::Ordering::Relaxed)));
         rep.add(sec);
     }
+    // failing writes: the tool may fail, it must not panic (whatever the output path is made of), for every way a write
+    // can fail that the harness can arrange x every kind of output directory name
+    for backend in ["ring", "aws"] {
+        let bin = root.join(format!("harness/target/cli-{}/release/rustls-cert-gen", backend));
+        if !bin.exists() {
+            continue;
+        }
+        use std::os::unix::ffi::OsStrExt;
+        let dirs: Vec<(&str, Vec<u8>)> = vec![("plain", b"out".to_vec()), ("not UTF-8", b"schl\xfcssel".to_vec()), ("non-ASCII", "schl\u{fc}ssel".as_bytes().to_vec()), ("blanks", b" out dir.".to_vec())];
+        let failures = ["cert name inside a missing directory", "ca name inside a missing directory", "output path is a file", "output directory is read-only", "a key file name is taken by a directory", "cert name is empty", "cert name is 300 bytes long"];
+        let cases: Vec<(usize, usize)> = (0..dirs.len()).flat_map(|d| (0..failures.len()).map(move |f| (d, f))).collect();
+        let sec = Section::new(&format!("cli/{}/failing-writes", backend), "4 kinds of output directory name x 7 ways a write can fail (base names that point into a missing directory, the output path being a file, a read-only directory, a file name taken by a directory, an empty and an over-long base name): the tool exits without panicking").with_deadline(if thorough { 300 } else { 30 });
+        run::sweep_cases(&sec, &cases, &|c| format!("{} / {}", dirs[c.0].0, failures[c.1]), &|c| {
+            let mut out = Outcome::default();
+            let id = counter.fetch_add(1, std::sync::atomic::Ordering::Relaxed);
+            let top = scratch.join(format!("fw-{}", id));
+            let _ = std::fs::remove_dir_all(&top);
+            std::fs::create_dir_all(&top).unwrap();
+            let dir = top.join(std::ffi::OsStr::from_bytes(&dirs[c.0].1));
+            let mut args: Vec<std::ffi::OsString> = vec!["--output".into(), dir.as_os_str().to_os_string()];
+            match c.1 {
+                0 => args.extend(["--cert-file-name".into(), "no-such-dir/leaf".into()]),
+                1 => args.extend(["--ca-file-name".into(), "no-such-dir/ca".into()]),
+                2 => std::fs::write(&dir, b"a file").unwrap(),
+                3 => {
+                    std::fs::create_dir_all(&dir).unwrap();
+                    use std::os::unix::fs::PermissionsExt;
+                    let _ = std::fs::set_permissions(&dir, std::fs::Permissions::from_mode(0o555));
+                }
+                4 => std::fs::create_dir_all(dir.join("cert.key.pem")).unwrap(),
+                5 => args.extend(["--cert-file-name".into(), "".into()]),
+                _ => args.extend(["--cert-file-name".into(), "n".repeat(300).into()]),
+            }
+            let r = std::process::Command::new(&bin).args(&args).output();
+            out.transitions = 1;
+            match r {
+                Ok(r) => {
+                    let stderr = String::from_utf8_lossy(&r.stderr).to_string();
+                    out.digest = fnv(format!("{:?}", r.status.code()).as_bytes());
+                    if stderr.contains("panicked at") || r.status.code() == Some(101) || r.status.code().is_none() {
+                        out.findings.push(Finding::new("CLI-PANIC", "stderr/exit", format!("exit {:?}: {}", r.status.code(), stderr.lines().next().unwrap_or(""))));
+                    }
+                }
+                Err(e) => out.machinery.push(format!("cannot run the CLI: {}", e)),
+            }
+            // make the tree removable again
+            {
+                use std::os::unix::fs::PermissionsExt;
+                let _ = std::fs::set_permissions(&dir, std::fs::Permissions::from_mode(0o755));
+            }
+            let _ = std::fs::remove_dir_all(&top);
+            out
+        });
+        rep.add(sec);
+    }
     let _ = std::fs::remove_dir_all(&scratch);
     // the library half of the crate: histories over its builders
     #[cfg(feature = "crypto")]
